@@ -749,10 +749,17 @@ class SymPaths:
                 done.append(q)
             return []
         if isinstance(st, ast.Raise):
-            path.raised = self.expand(st.exc, path) if st.exc is not None else ast.Constant(value=None)
-            path.ret = None
-            path.exit = 'raise'
-            done.append(path)
+            if st.exc is None:
+                path.raised = ast.Constant(value=None)
+                path.ret = None
+                path.exit = 'raise'
+                done.append(path)
+                return []
+            for q, v in self.value_paths(st.exc, path):
+                q.raised = v
+                q.ret = None
+                q.exit = 'raise'
+                done.append(q)
             return []
         if isinstance(st, ast.For) and self.unroll and not st.orelse:
             try:
